@@ -25,6 +25,7 @@ def move_agent(state, action, rng):
     ensures('frame', lambda: state.agent.orientation is o0 and same(state.grid, g0)
             and same(state.agent.grid_object, it0))
     ensures('no-draw', lambda: draws(rng) == 0)
+    ensures_native('multiset-preserved', lambda: ms(state.grid, state.agent.grid_object) == ms(g0, it0))
 
 
 @contract(target=T + 'turn_agent', args=SAR, kwonly=['rng'], props=['C01', 'C03', 'C08', 'C09', 'C10'])
@@ -60,6 +61,7 @@ def pickndrop(state, action, rng):
     ensures('shape', lambda: state.grid.shape == g0.shape)
     ensures('pose', lambda: state.agent.position == p0 and state.agent.orientation is o0)
     ensures('no-draw', lambda: draws(rng) == 0)
+    ensures_native('multiset-preserved', lambda: ms(state.grid, state.agent.grid_object) == ms(g0, hand))
 
 
 @contract(target=T + 'actuate_door', args=SAR, kwonly=['rng'], props=['C01', 'C03', 'C08', 'C09', 'C10'])
@@ -76,6 +78,7 @@ def actuate_door(state, action, rng):
     ensures('total', lambda: returned())
     ensures('exact', lambda: forall_cells(state.grid, lambda c: same(
         state.grid[c], Door(Door.Status.OPEN, g0[fr].color) if (opens and c == fr) else g0[c])))
+    ensures_native('multiset-preserved-up-to-door-status', lambda: len(ms(state.grid, state.agent.grid_object)) == len(ms(g0, hand)))
     ensures('shape', lambda: state.grid.shape == g0.shape)
     ensures('agent-untouched', lambda: state.agent.position == p0 and state.agent.orientation is o0
             and same(state.agent.grid_object, hand))
@@ -94,6 +97,7 @@ def actuate_box(state, action, rng):
     ensures('total', lambda: returned())
     ensures('exact', lambda: forall_cells(state.grid, lambda c: same(
         state.grid[c], g0[fr].content if (act and c == fr) else g0[c])))
+    ensures_native('multiset-preserved-unless-box-opened', lambda: act or ms(state.grid, state.agent.grid_object) == ms(g0, hand))
     ensures('shape', lambda: state.grid.shape == g0.shape)
     ensures('agent-untouched', lambda: state.agent.position == p0 and state.agent.orientation is o0
             and same(state.agent.grid_object, hand))
@@ -118,6 +122,8 @@ def teleport(state, action, rng):
     ensures('frame', lambda: state.agent.orientation is o0 and same(state.grid, g0)
             and same(state.agent.grid_object, hand))
     ensures('draws-only-on-pod', lambda: draws(rng) == (1 if has_partner else 0))
+    ensures('each-partner-possible', lambda: forall_cells(g0, lambda q: implies(
+        on_pod and partner(q), lambda: possible(rng, lambda: state.agent.position == q))))
 
 
 # ------------------------------------------------------------------ move_obstacles
@@ -129,7 +135,9 @@ def fo(o):
 def mo_inv(k, n, item, pre, state):
     g = state.grid
     g0 = pre.state.grid
+    declared = contract_input('declared', None)   # only the closure contract has it
     return (g.shape == g0.shape
+            and (declared is None or forall_cells(g, lambda c: declared(g[c])))
             # scenery never moves; floor/obstacle cells stay floor/obstacle cells
             and forall_cells(g, lambda c: (same(g[c], g0[c]) if not fo(g0[c]) else fo(g[c])))
             # obstacles whose turn has not come are still where they were collected
@@ -208,6 +216,7 @@ def move_obstacles(state, action, rng):
             and state.agent.orientation is s0.agent.orientation and same(state.agent.grid_object, s0.agent.grid_object))
     ensures('obstacles-move-at-most-one-step-onto-floor', lambda: forall_cells(state.grid, lambda c: implies(
         isinstance(state.grid[c], MovingObstacle), lambda: near_obstacle(g0, c))))
+    ensures_native('multiset-preserved', lambda: ms(state.grid, state.agent.grid_object) == ms(g0, s0.agent.grid_object))
     ensures_native('no-obstacle-lost-or-duplicated', lambda: count_cells(state.grid, lambda o: isinstance(o, MovingObstacle))
                    == count_cells(g0, lambda o: isinstance(o, MovingObstacle)))
 
@@ -242,3 +251,116 @@ def transition_with_copy(transition_function, state, action, rng):
             and ghost_seq(FC, 0) < ghost_seq(tf, 0))
     ensures('returns-the-copy', lambda: result() is ghost_result(FC, 0))
     ensures('input-state-untouched', lambda: same(state, s0))
+
+
+# ------------------------------------------------------------------ closure (C01) and the kinematic invariant (C08)
+# `declared` is an arbitrary predicate on objects standing for "conforms to the declared space" (type and
+# colour declared, recursively for box contents).  Every built-in transition keeps all cells and the held
+# item declared, for every such predicate that is closed under the operations the dynamics perform.
+def space_closed(declared):
+    return (forall_obj(lambda o: implies(isinstance(o, Box) and declared(o), lambda: declared(o.content)))
+            and forall_obj(lambda o: implies(isinstance(o, Door) and declared(o),
+                                             lambda: declared(Door(Door.Status.OPEN, o.color)))))
+
+
+def state_declared(declared, state):
+    return (in_grid(state.grid, state.agent.position)
+            and forall_cells(state.grid, lambda c: declared(state.grid[c]))
+            and (declared(state.agent.grid_object) or isinstance(state.agent.grid_object, NoneGridObject)))
+
+
+def agent_free(state):
+    """the agent stands inside the grid on a cell that does not block movement"""
+    return in_grid(state.grid, state.agent.position) and not state.grid[state.agent.position].blocks_movement
+
+
+def closure(state, action, rng, declared, needs_floor):
+    requires(space_closed(declared) and state_declared(declared, state))
+    requires(implies(needs_floor, lambda: declared(Floor())))
+    shape0 = old(state.grid.shape)
+    free0 = old(agent_free(state))
+    ensures('total', lambda: returned())
+    ensures('stays-in-the-space', lambda: state.grid.shape == shape0 and state_declared(declared, state))
+    ensures('agent-stays-on-a-free-cell', lambda: implies(free0, lambda: agent_free(state)))
+
+
+CARGS = dict(SAR, declared='ObjPred')
+
+
+@contract(target=T + 'move_agent', args=CARGS, kwonly=['rng'], ghost=['declared'], props=['C01', 'C08'])
+def closure_move_agent(state, action, rng, declared):
+    closure(state, action, rng, declared, False)
+
+
+@contract(target=T + 'turn_agent', args=CARGS, kwonly=['rng'], ghost=['declared'], props=['C01', 'C08'])
+def closure_turn_agent(state, action, rng, declared):
+    closure(state, action, rng, declared, False)
+
+
+@contract(target=T + 'pickndrop', args=CARGS, kwonly=['rng'], ghost=['declared'], props=['C01', 'C08'])
+def closure_pickndrop(state, action, rng, declared):
+    # documented precondition: the space declares Floor (picking up leaves a floor cell)
+    closure(state, action, rng, declared, True)
+
+
+@contract(target=T + 'actuate_door', args=CARGS, kwonly=['rng'], ghost=['declared'], props=['C01', 'C08'])
+def closure_actuate_door(state, action, rng, declared):
+    closure(state, action, rng, declared, False)
+
+
+@contract(target=T + 'actuate_box', args=CARGS, kwonly=['rng'], ghost=['declared'], props=['C01', 'C08'])
+def closure_actuate_box(state, action, rng, declared):
+    closure(state, action, rng, declared, False)
+
+
+@contract(target=T + 'teleport', args=CARGS, kwonly=['rng'], ghost=['declared'], props=['C01', 'C08'])
+def closure_teleport(state, action, rng, declared):
+    closure(state, action, rng, declared, False)
+
+
+@contract(target=T + 'move_obstacles', args=CARGS, kwonly=['rng'], ghost=['declared'], props=['C01', 'C08'])
+def closure_move_obstacles(state, action, rng, declared):
+    closure(state, action, rng, declared, False)
+
+
+# ------------------------------------------------------------------ small lemmas over the real functions
+@lemma(args={'state': 'State'}, props=['C08', 'C18'])
+def turns_compose(state):
+    """left then right, or four equal turns, restore the heading; turns never displace"""
+    from gym_gridverse.envs.transition_functions import turn_agent as ta
+    o0 = state.agent.orientation
+    p0 = state.agent.position
+    ta(state, Action.TURN_LEFT)
+    o1 = state.agent.orientation
+    ta(state, Action.TURN_RIGHT)
+    check('left-then-right', lambda: state.agent.orientation is o0 and state.agent.position == p0)
+    check('left-is-a-quarter-turn', lambda: o1 is turn(o0, L) and o1 is not o0)
+    ta(state, Action.TURN_RIGHT)
+    ta(state, Action.TURN_RIGHT)
+    ta(state, Action.TURN_RIGHT)
+    ta(state, Action.TURN_RIGHT)
+    check('four-rights', lambda: state.agent.orientation is o0 and state.agent.position == p0)
+
+
+@lemma(args={'status': 'DoorStatus', 'color': 'Color'}, props=['C08', 'C10'])
+def door_flags(status, color):
+    """doors block movement and vision unless open; they are never holdable and keep their colour"""
+    d = Door(status, color)
+    is_open = status is Door.Status.OPEN
+    check('blocking-unless-open', lambda: d.blocks_movement == (not is_open) and d.blocks_vision == (not is_open))
+    check('flags', lambda: d.is_open == is_open and d.is_locked == (status is Door.Status.LOCKED)
+          and not d.holdable and d.color is color and d.state is status)
+
+
+@lemma(args={'o': 'Obj'}, props=['C09', 'C10'])
+def holdable_objects(o):
+    """only keys can be picked up; walls, doors, exits, boxes, telepods, beacons, obstacles cannot"""
+    check('only-keys', lambda: o.holdable == isinstance(o, Key))
+
+
+def ms(grid, hand):
+    """all non-floor objects on the grid together with the held item (native only)"""
+    def key(o):
+        return repr(o) + ':' + str(o.color) + (':' + key(o.content) if isinstance(o, Box) else '')
+    objs = [grid[p] for p in grid.area.positions()] + [hand]
+    return sorted(key(o) for o in objs if not isinstance(o, Floor) and not isinstance(o, NoneGridObject))
